@@ -181,6 +181,34 @@ pub fn run(r: &Report) {
     r.sample(sub, json!({"item": all[all.len() / 2].diag(), "input_hex": hex(&all[all.len() / 2].to_bytes())}));
     r.sample(sub, json!({"item": all[all.len() - 1].diag(), "input_hex": hex(&all[all.len() - 1].to_bytes())}));
 
+    // every leaf head form in every small context
+    {
+        let sub = "leaf-forms";
+        let forms = Alphabet::leaf_forms();
+        r.space(sub, true, &format!("all item trees with <= 4 nodes over the leaf-form alphabet ({} leaves: integers and definite strings at all 5 argument widths, one- and two-byte simple values, f16/f32/f64) x 6 suffixes, plus every strict prefix", forms.leaves.len()), 1);
+        let small: Vec<Item> = trees_up_to(4, &forms);
+        let shards = 256usize;
+        mcx::par::run_shards(
+            shards,
+            |s| {
+                let mut evals = 0u64;
+                let mut n = 0u64;
+                let mut i = s;
+                while i < small.len() {
+                    let (e, t) = check_tree(r, sub, &small[i], true);
+                    evals += e;
+                    n += t;
+                    i += shards;
+                }
+                r.add(sub, evals, n);
+                r.add_states(sub, n, evals);
+                r.outcome(sub, "trees", n);
+            },
+            crate::hang_handler(r.property.clone()),
+        );
+        r.sample(sub, json!({"item": small[small.len() / 3].diag(), "input_hex": hex(&small[small.len() / 3].to_bytes())}));
+    }
+
     // trees with non-preferred heads: widths influence item boundaries
     {
         let sub = "width-deviations";
